@@ -704,17 +704,21 @@ impl FdlActiveStation {
             current_address + 1
         };
 
-        if next_address >= next_station && next_station > self.p.address {
-            // We have reached the end of the GAP, enter waiting state.
-            GapState::Waiting { rotation_count: 0 }
-        } else if next_address == next_station && next_station == self.p.address {
-            // We have reached the end of the GAP, enter waiting state (NS==TS case).
-            GapState::Waiting { rotation_count: 0 }
-        } else if next_address >= next_station
-            && next_station < self.p.address
-            && next_address < self.p.address
-        {
-            // We have reached the end of the GAP, enter waiting state (wrap-around GAP case).
+        // Position of an address when walking upwards from TS through the address space
+        // (wrapping around at HSA).  The GAP are all addresses strictly between TS and NS.
+        let hsa = i16::from(self.p.highest_station_address);
+        let distance =
+            |addr: crate::Address| (i16::from(addr) - i16::from(self.p.address)).rem_euclid(hsa);
+        let gap_end = if next_station == self.p.address {
+            hsa
+        } else {
+            distance(next_station)
+        };
+
+        if distance(next_address) == 0 || distance(next_address) >= gap_end {
+            // We have reached the end of the GAP, enter waiting state.  This covers NS > TS, the
+            // wrap-around GAP (NS < TS), NS == TS, and a successor which was only just found at
+            // TS-1 or HSA-1 (where `next_address` is already past it).
             GapState::Waiting { rotation_count: 0 }
         } else {
             GapState::DoPoll {
